@@ -38,6 +38,8 @@ Notation scanR := (gbb_scan R Rltb).
 Notation transformR := (gbb_transform R Rplus Rminus Rmult Rdiv Ropp Q2R exp ln sqrt).
 Notation acceptR := (gbb_accept R Rplus Rminus Rmult Rdiv Ropp Rleb Q2R alog).
 Notation loopR := (gbb_loop R Rplus Rminus Rmult Rdiv Ropp Rltb Rleb Q2R alog exp ln sqrt).
+Notation boundsR := (gbb_bounds R Rplus Rminus Ropp Rltb Q2R).
+Notation coreR := (gbb_core R Rplus Rminus Rmult Rdiv Ropp Rltb Rleb Q2R Int_part wexp alog exp ln sqrt).
 Notation gbbR := (gbb R Rplus Rminus Rmult Rdiv Ropp Rltb Rleb Q2R Int_part wexp alog exp ln sqrt).
 Notation gibbsR := (gibbs_value R Rplus Rminus Rmult Rdiv Ropp Rltb Rleb Q2R Int_part wexp alog exp ln sqrt).
 
@@ -167,19 +169,11 @@ Proof.
     inversion Hus as [|? ? _ Hr]; inversion Hr as [|? ? _ Hr2]; inversion Hr2; assumption.
 Qed.
 
-Definition eff_lo (binf : option R) : R := match binf with None => -20 | Some v => v end.
-Definition eff_hi (bsup : option R) : R := match bsup with None => 20 | Some v => v end.
-
-Lemma bounded_draw binf bsup us x n m :
-  eff_lo binf <= eff_hi bsup -> Forall u_ok us ->
-  gbbR binf bsup us = GOk x n m -> eff_lo binf <= x <= eff_hi bsup.
+(* the loop, for effective bounds a <= b *)
+Lemma core_safe a b us x n m :
+  a <= b -> Forall u_ok us -> coreR a b us = GOk x n m -> a <= x <= b.
 Proof.
-  intros Hab Hus H. unfold gbb in H.
-  set (a := match binf with None => - g_large R Q2R | Some v => v end) in *.
-  set (b := match bsup with None => g_large R Q2R | Some v => v end) in *.
-  assert (Ea : a = eff_lo binf) by (unfold a, eff_lo; destruct binf; [reflexivity| rewrite large_eq; reflexivity]).
-  assert (Eb : b = eff_hi bsup) by (unfold b, eff_hi; destruct bsup; [reflexivity| rewrite large_eq; reflexivity]).
-  rewrite <- Ea, <- Eb in *.
+  intros Hab Hus H. unfold gbb_core in H.
   pose proof (split_ok a b Hab) as Htab.
   destruct (Rleb (last (cumulR T0 (splitR a b)) T0) T0).
   - destruct us as [|u rest]; [discriminate|].
@@ -189,6 +183,38 @@ Proof.
     apply nth_error_In in En. rewrite Forall_forall in Htab. specialize (Htab _ En).
     destruct Htab as (A1 & A2 & A3 & _). lra.
   - refine (loop_safe a b _ _ Htab (S (length us)) us _ _ x n m _ Hus H). apply Nat.lt_succ_diag_r.
+Qed.
+
+(* the effective bounds: a defined bound is kept as it is, an undefined one is put at least 20 beyond *)
+Definition ordered (binf bsup : option R) : Prop :=
+  forall l h, binf = Some l -> bsup = Some h -> l <= h.
+
+Lemma bounds_spec binf bsup : ordered binf bsup ->
+  let (a, b) := boundsR binf bsup in
+  a <= b /\ (forall l, binf = Some l -> a = l) /\ (forall h, bsup = Some h -> b = h).
+Proof.
+  intro Ho. unfold gbb_bounds. rewrite large_eq.
+  destruct binf as [l|], bsup as [h|].
+  - split; [apply (Ho l h); reflexivity|]. split; intros ? E; injection E as <-; reflexivity.
+  - destruct (Rltb l (l + 20)) eqn:E; [apply Rltb_true in E| apply Rltb_false in E].
+    + destruct (Rltb 20 (l + 20)) eqn:E2; [apply Rltb_true in E2| apply Rltb_false in E2];
+        (split; [lra|]); (split; [intros ? E3; injection E3 as <-; reflexivity| intros ? E3; discriminate]).
+    + exfalso; lra.
+  - destruct (Rltb (h - 20) (- (20))) eqn:E; [apply Rltb_true in E| apply Rltb_false in E];
+      (split; [lra|]); (split; [intros ? E3; discriminate| intros ? E3; injection E3 as <-; reflexivity]).
+  - split; [lra|]. split; intros ? E; discriminate.
+Qed.
+
+Lemma bounded_draw binf bsup us x n m :
+  ordered binf bsup -> Forall u_ok us ->
+  gbbR binf bsup us = GOk x n m ->
+  (forall l, binf = Some l -> l <= x) /\ (forall h, bsup = Some h -> x <= h).
+Proof.
+  intros Ho Hus H. unfold gbb in H.
+  pose proof (bounds_spec binf bsup Ho) as B.
+  destruct (boundsR binf bsup) as [a b]. destruct B as (Hab & Ha & Hb).
+  destruct (core_safe a b us x n m Hab Hus H) as [L U].
+  split; [intros l E; rewrite <- (Ha l E); exact L| intros h E; rewrite <- (Hb h E); exact U].
 Qed.
 
 (* ---------------------------------------------------------------- table indexing is safe *)
@@ -234,12 +260,10 @@ Proof.
 Qed.
 
 (* no execution on admissible inputs indexes outside atab/btab/itab/ptab *)
-Lemma no_overrun binf bsup us :
-  Forall u_ok us -> gbbR binf bsup us <> GOverrun.
+Lemma core_no_overrun a b us :
+  Forall u_ok us -> coreR a b us <> GOverrun.
 Proof.
-  intros Hus. unfold gbb.
-  set (a := match binf with None => - g_large R Q2R | Some v => v end).
-  set (b := match bsup with None => g_large R Q2R | Some v => v end).
+  intros Hus. unfold gbb_core.
   set (tab := splitR a b). set (cum := cumulR T0 tab). set (total := last cum T0).
   assert (Hlen : length cum = length tab) by apply cumul_length.
   assert (Hne : tab <> []) by apply split_nonempty.
@@ -278,11 +302,15 @@ Proof.
     apply (G (S (length us))); [lia| exact Hus].
 Qed.
 
+Lemma no_overrun binf bsup us :
+  Forall u_ok us -> gbbR binf bsup us <> GOverrun.
+Proof.
+  intros Hus. unfold gbb. destruct (boundsR binf bsup) as [a b]. apply core_no_overrun. exact Hus.
+Qed.
+
 (* ---------------------------------------------------------------- Gibbs update *)
 Lemma gibbs_in_bounds yk sk vmin vmax us v n m :
-  0 < sk ->
-  eff_lo (option_map (fun t => (t - yk) / sk) vmin) <= eff_hi (option_map (fun t => (t - yk) / sk) vmax) ->
-  Forall u_ok us ->
+  0 < sk -> ordered vmin vmax -> Forall u_ok us ->
   gibbsR yk sk vmin vmax us = GOk v n m ->
   (forall l, vmin = Some l -> l <= v) /\ (forall h, vmax = Some h -> v <= h).
 Proof.
@@ -290,44 +318,21 @@ Proof.
   destruct (gbbR (option_map (fun t => (t - yk) / sk) vmin) (option_map (fun t => (t - yk) / sk) vmax) us)
     as [x nn mm| |] eqn:E; try discriminate.
   injection H as Hv _ _. subst v.
-  destruct (bounded_draw _ _ us x nn mm Hord Hus E) as [L U].
+  assert (Ho : ordered (option_map (fun t => (t - yk) / sk) vmin) (option_map (fun t => (t - yk) / sk) vmax)).
+  { intros l h El Eh. destruct vmin as [l0|]; [|discriminate]. destruct vmax as [h0|]; [|discriminate].
+    simpl in El, Eh. injection El as <-. injection Eh as <-.
+    pose proof (Hord l0 h0 eq_refl eq_refl) as Hle.
+    unfold Rdiv. apply Rmult_le_compat_r; [left; apply Rinv_0_lt_compat; exact Hsk| lra]. }
+  destruct (bounded_draw _ _ us x nn mm Ho Hus E) as [L U].
   split.
-  - intros l ->. simpl in L.
+  - intros l ->. specialize (L _ eq_refl).
     assert (l - yk <= sk * x).
     { apply Rmult_le_compat_l with (r := sk) in L; [|lra]. replace (sk * ((l - yk) / sk)) with (l - yk) in L by (field; lra). exact L. }
     lra.
-  - intros h ->. simpl in U.
+  - intros h ->. specialize (U _ eq_refl).
     assert (sk * x <= h - yk).
     { apply Rmult_le_compat_l with (r := sk) in U; [|lra]. replace (sk * ((h - yk) / sk)) with (h - yk) in U by (field; lra). exact U. }
     lra.
-Qed.
-
-(* an undefined lower bound is replaced by -20 : an upper bound below -20 is not honoured *)
-
-Lemma split_open : splitR (Ropp 20) (-25) = [(Ropp 20, -25, 1%Z)].
-Proof.
-  unfold gbb_split, tmin. rewrite seuil_eq.
-  repeat (case_cmp; cbn [app]; try (exfalso; lra)). all: reflexivity.
-Qed.
-Lemma open_side_beyond_large (wexp_incr : forall x y, x < y -> wexp x < wexp y) u rest :
-  u_ok u -> exists x n m, gbbR None (Some (-25)) (u :: rest) = GOk x n m /\ x = -20.
-Proof.
-  intros Hu. unfold gbb. rewrite large_eq, split_open.
-  cbn [cumul last length]. unfold gbb_wgt, tabs. rewrite !T0_eq, !T2_eq.
-  replace (Rltb (- (20) - -25) 0) with false by (symmetry; apply Rltb_false; lra).
-  replace (Rltb 0 (- (20) - -25)) with true by (symmetry; apply Rltb_true; lra).
-  cbn [Z.eqb Pos.eqb].
-  set (w := (wexp (- - (20) * - (20) / 2) - wexp (- (-25) * -25 / 2)) / -25).
-  assert (W : w < 0).
-  { unfold w. assert (D : wexp (- (-25) * -25 / 2) < wexp (- - (20) * - (20) / 2)) by (apply wexp_incr; lra).
-    unfold Rdiv at 3. replace (/ -25) with (- / 25) by (rewrite <- Rinv_opp; f_equal; lra).
-    assert (0 < (wexp (- - (20) * - (20) / 2) - wexp (- (-25) * -25 / 2)) * / 25) by (apply Rmult_lt_0_compat; lra).
-    lra. }
-  replace (Rleb (0 + w) 0) with true by (symmetry; apply Rleb_true; lra).
-  rewrite Q2R_inject_Z.
-  destruct (int_part_bound 1 u Hu) as [B1 B2]. specialize (B2 ltac:(discriminate)).
-  assert (E : Int_part (IZR (Z.of_nat 1) * u) = 0%Z) by lia.
-  rewrite E. cbn. eexists _, _, _. split; [reflexivity|]. lra.
 Qed.
 
 (* non-vacuity: the degenerate interval [1,1] (weights 0, one uniform) *)
@@ -340,7 +345,7 @@ Lemma degenerate_interval_example :
   exists m, gbbR (Some 1) (Some 1) [/ 2] = GOk 1 1 m /\ u_ok (/ 2).
 Proof.
   exists []. split; [| unfold u_ok; split; lra].
-  unfold gbb. rewrite split_11.
+  unfold gbb, gbb_bounds, gbb_core. rewrite split_11.
   cbn [cumul last length]. unfold gbb_wgt, tabs. rewrite !T0_eq.
   replace (Rltb (1 - 1) 0) with false by (symmetry; apply Rltb_false; lra).
   replace (Rltb 0 (1 - 1)) with false by (symmetry; apply Rltb_false; lra).
@@ -349,5 +354,12 @@ Proof.
   destruct (int_part_bound 1 (/ 2)) as [B1 B2]; [split; lra|]. specialize (B2 ltac:(discriminate)).
   assert (E : Int_part (IZR (Z.of_nat 1) * / 2) = 0%Z) by lia.
   rewrite E. reflexivity.
+Qed.
+(* non-vacuity of the half-open case: bounds (undefined, -25) become [-45, -25] *)
+Lemma bounds_open_example : boundsR None (Some (-25)) = (-25 - 20, -25) /\ ordered None (Some (-25)).
+Proof.
+  split; [| intros l h E; discriminate].
+  unfold gbb_bounds. rewrite large_eq.
+  replace (Rltb (-25 - 20) (- (20))) with true by (symmetry; apply Rltb_true; lra). reflexivity.
 Qed.
 End GBB_R.
